@@ -432,18 +432,20 @@ Fixpoint ref_opc_f (fuel : nat) (s : list N) : list msg :=
 Definition ref_opc (s : list N) : list msg := ref_opc_f (length s) s.
 
 (* ------------------------------------------------------------------ ACN over TCP (IncomingStreamTransport) *)
-(* a_data = [m_buffer_start, m_data_end), a_cap = BufferSize() (0 = no buffer yet), a_out =
-   m_outstanding_data, a_block/a_cons = m_block_size/m_consumed_block_size, a_lsize = m_pdu_length_size,
-   a_psize = m_pdu_size.  The inflator is the harness' recording inflator: it is handed the whole PDU
-   and reports all of it consumed.  A delivered message is (0, PDU bytes). *)
+(* a_rdata = the bytes of [m_buffer_start, m_data_end) in REVERSE order (so that storing is cheap),
+   a_len = DataLength(), a_cap = BufferSize() (0 = no buffer yet), a_out = m_outstanding_data,
+   a_block/a_cons = m_block_size/m_consumed_block_size, a_lsize = m_pdu_length_size, a_psize =
+   m_pdu_size.  Buffer elements are uint8_t and m_block_size is a uint32_t, hence the u8/u32 where the
+   handlers combine them.  The inflator is the harness' recording inflator: it is handed the whole
+   PDU and reports all of it consumed.  A delivered message is (0, PDU bytes). *)
 Inductive ast := A_PRE | A_FLAGS | A_LEN | A_PDU.
-Record astate := { a_st : ast; a_data : list N; a_out : N; a_block : N; a_cons : N; a_lsize : N;
-                   a_psize : N; a_cap : N; a_valid : bool }.
-Definition ACN_HEADER : list N := [65; 83; 67; 45; 69; 49; 46; 49; 55; 0; 0; 0].
-Definition ACN_INITIAL_SIZE : N := 500.
+Record astate := { a_st : ast; a_rdata : list N; a_len : N; a_out : N; a_block : N; a_cons : N;
+                   a_lsize : N; a_psize : N; a_cap : N; a_valid : bool }.
+Definition adata (s : astate) : list N := rev (a_rdata s).
+Definition ACN_PREAMBLE : N := ACN_HEADER_SIZE + ACN_PDU_BLOCK_SIZE.
 Definition a_init : astate :=
-  {| a_st := A_PRE; a_data := []; a_out := 16; a_block := 0; a_cons := 0; a_lsize := 2; a_psize := 0;
-     a_cap := 0; a_valid := true |}.
+  {| a_st := A_PRE; a_rdata := []; a_len := 0; a_out := ACN_PREAMBLE; a_block := 0; a_cons := 0;
+     a_lsize := ACN_TWO_BYTES; a_psize := 0; a_cap := 0; a_valid := true |}.
 
 Fixpoint list_eqb (a b : list N) : bool :=
   match a, b with
@@ -453,78 +455,83 @@ Fixpoint list_eqb (a b : list N) : bool :=
   end.
 
 Definition be32 (l : list N) : N :=
-  match l with a :: b :: c :: d :: _ => ((a * 256 + b) * 256 + c) * 256 + d | _ => 0 end.
-Definition lflag (b0 : N) : bool := negb (N.land b0 128 =? 0).          (* *buf & LFLAG_MASK *)
+  match l with
+  | a :: b :: c :: d :: _ => u32 (((u8 a * 256 + u8 b) * 256 + u8 c) * 256 + u8 d)
+  | _ => 0
+  end.
+Definition lflag (b0 : N) : bool := negb (N.land b0 ACN_LFLAG_MASK =? 0).   (* *buf & LFLAG_MASK *)
 Definition pdu_len (ls : N) (d : list N) : N :=
   match d with
   | b0 :: b1 :: r =>
-    if ls =? 3 then match r with b2 :: _ => b2 + b1 * 256 + N.land b0 15 * 65536 | [] => 0 end
-    else b1 + N.land b0 15 * 256
+    if ls =? ACN_THREE_BYTES
+    then match r with
+         | b2 :: _ => u8 b2 + u8 b1 * 256 + N.land b0 ACN_LENGTH_MASK * 65536
+         | [] => 0
+         end
+    else u8 b1 + N.land b0 ACN_LENGTH_MASK * 256
   | _ => 0
   end.
 
-(* EnterWaitingForPreamble / EnterWaitingForPDU *)
-Definition a_enter_pre (s : astate) : astate :=
-  {| a_st := A_PRE; a_data := []; a_out := 16; a_block := a_block s; a_cons := a_cons s;
+(* EnterWaitingForPreamble / EnterWaitingForPDU: m_data_end = m_buffer_start *)
+Definition a_enter (t : ast) (out block cons : N) (s : astate) : astate :=
+  {| a_st := t; a_rdata := []; a_len := 0; a_out := out; a_block := block; a_cons := cons;
      a_lsize := a_lsize s; a_psize := a_psize s; a_cap := a_cap s; a_valid := a_valid s |}.
-Definition a_enter_pdu (s : astate) : astate :=
-  {| a_st := A_FLAGS; a_data := []; a_out := 1; a_block := a_block s; a_cons := a_cons s;
-     a_lsize := a_lsize s; a_psize := a_psize s; a_cap := a_cap s; a_valid := a_valid s |}.
-Definition a_invalid (s : astate) : astate :=
-  {| a_st := a_st s; a_data := a_data s; a_out := a_out s; a_block := a_block s; a_cons := a_cons s;
-     a_lsize := a_lsize s; a_psize := a_psize s; a_cap := a_cap s; a_valid := false |}.
+Definition a_invalid (psize : N) (s : astate) : astate :=
+  {| a_st := a_st s; a_rdata := a_rdata s; a_len := a_len s; a_out := a_out s; a_block := a_block s;
+     a_cons := a_cons s; a_lsize := a_lsize s; a_psize := psize; a_cap := a_cap s; a_valid := false |}.
 
 (* HandlePreamble / HandlePDUFlags / HandlePDULength / HandlePDU (the switch in Receive) *)
 Definition a_handle (s : astate) : astate * list msg :=
   match a_st s with
   | A_PRE =>
-    if negb (list_eqb (take 12 (a_data s)) ACN_HEADER) then (a_invalid s, [])
+    if negb (list_eqb (take ACN_HEADER_SIZE (adata s)) ACN_HEADER) then (a_invalid (a_psize s) s, [])
     else
-      let bs := be32 (drop 12 (a_data s)) in
-      let s1 := {| a_st := a_st s; a_data := a_data s; a_out := a_out s; a_block := bs;
-                   a_cons := if bs =? 0 then a_cons s else 0; a_lsize := a_lsize s;
-                   a_psize := a_psize s; a_cap := a_cap s; a_valid := a_valid s |} in
-      (if bs =? 0 then a_enter_pre s1 else a_enter_pdu s1, [])
+      let bs := be32 (drop ACN_HEADER_SIZE (adata s)) in
+      (if bs =? 0 then a_enter A_PRE ACN_PREAMBLE bs (a_cons s) s else a_enter A_FLAGS 1 bs 0 s, [])
   | A_FLAGS =>
-    let ls := match a_data s with b0 :: _ => if lflag b0 then 3 else 2 | [] => 2 end in
-    ({| a_st := A_LEN; a_data := a_data s; a_out := u32 (a_out s + (ls - 1)); a_block := a_block s;
-        a_cons := a_cons s; a_lsize := ls; a_psize := a_psize s; a_cap := a_cap s;
-        a_valid := a_valid s |}, [])
+    let ls := match adata s with
+              | b0 :: _ => if lflag b0 then ACN_THREE_BYTES else ACN_TWO_BYTES
+              | [] => ACN_TWO_BYTES
+              end in
+    ({| a_st := A_LEN; a_rdata := a_rdata s; a_len := a_len s; a_out := u32 (a_out s + (ls - 1));
+        a_block := a_block s; a_cons := a_cons s; a_lsize := ls; a_psize := a_psize s;
+        a_cap := a_cap s; a_valid := a_valid s |}, [])
   | A_LEN =>
-    let ps := pdu_len (a_lsize s) (a_data s) in
-    let s1 := {| a_st := a_st s; a_data := a_data s; a_out := a_out s; a_block := a_block s;
-                 a_cons := a_cons s; a_lsize := a_lsize s; a_psize := ps; a_cap := a_cap s;
-                 a_valid := a_valid s |} in
-    if ps <? a_lsize s then (a_invalid s1, [])
-    else ({| a_st := A_PDU; a_data := a_data s; a_out := u32 (a_out s + usub32 ps (a_lsize s));
+    let ps := pdu_len (a_lsize s) (adata s) in
+    if ps <? a_lsize s then (a_invalid ps s, [])
+    else ({| a_st := A_PDU; a_rdata := a_rdata s; a_len := a_len s;
+             a_out := u32 (a_out s + usub32 ps (a_lsize s));
              a_block := a_block s; a_cons := a_cons s; a_lsize := a_lsize s; a_psize := ps;
              a_cap := a_cap s; a_valid := a_valid s |}, [])
   | A_PDU =>
-    if negb (len (a_data s) =? a_psize s) then (a_invalid s, [])
+    if negb (a_len s =? a_psize s) then (a_invalid (a_psize s) s, [])
     else
       let c := u32 (a_cons s + a_psize s) in
-      let s1 := {| a_st := a_st s; a_data := a_data s; a_out := a_out s; a_block := a_block s;
-                   a_cons := c; a_lsize := a_lsize s; a_psize := a_psize s; a_cap := a_cap s;
-                   a_valid := a_valid s |} in
-      (if c =? a_block s then a_enter_pre s1 else a_enter_pdu s1, [(0, a_data s)])
+      (if c =? a_block s then a_enter A_PRE ACN_PREAMBLE (a_block s) c s
+       else a_enter A_FLAGS 1 (a_block s) c s, [(0, adata s)])
   end.
 
-(* ReadRequiredData, with IncreaseBufferSize; None = a store outside the buffer *)
+(* IncreaseBufferSize as called from ReadRequiredData: the buffer size after the call *)
+Definition a_cap1 (s : astate) : N :=
+  let free := usub32 (a_cap s) (a_len s) in
+  let want := a_len s + a_out s in
+  if free <? a_out s
+  then (if want <=? a_cap s then a_cap s else N.max want ACN_INITIAL_SIZE)
+  else a_cap s.
+
+(* the k bytes `got` are stored at m_data_end *)
+Definition a_store (s : astate) (got : list N) (k : N) : astate :=
+  {| a_st := a_st s; a_rdata := rev_append got (a_rdata s); a_len := a_len s + k;
+     a_out := usub32 (a_out s) k; a_block := a_block s; a_cons := a_cons s; a_lsize := a_lsize s;
+     a_psize := a_psize s; a_cap := a_cap1 s; a_valid := a_valid s |}.
+
+(* ReadRequiredData; None = a store outside the buffer *)
 Definition a_read (s : astate) (av : list N) : option (astate * list N) :=
   if a_out s =? 0 then Some (s, av)
   else
-    let free := usub32 (a_cap s) (len (a_data s)) in
-    let want := len (a_data s) + a_out s in
-    let cap1 := if free <? a_out s
-                then (if want <=? a_cap s then a_cap s else N.max want ACN_INITIAL_SIZE)
-                else a_cap s in
-    let k := N.min (a_out s) (len av) in    (* Receive returns min(outstanding, available) bytes *)
-    let got := take k av in
-    if cap1 <? len (a_data s) + len got then None
-    else Some ({| a_st := a_st s; a_data := a_data s ++ got; a_out := usub32 (a_out s) (len got);
-                  a_block := a_block s; a_cons := a_cons s; a_lsize := a_lsize s;
-                  a_psize := a_psize s; a_cap := cap1; a_valid := a_valid s |},
-               drop k av).
+    let k := N.min (a_out s) (len av) in     (* Receive returns min(outstanding, available) bytes *)
+    if a_cap1 s <? a_len s + k then None
+    else Some (a_store s (take k av) k, drop k av).
 
 (* the `while (true)` loop of IncomingStreamTransport::Receive; None also when the fuel runs out
    (two iterations per available byte always suffice) *)
